@@ -306,7 +306,16 @@ func c03Run(c *core.Ctx) *core.Result {
 			}
 		}
 	case "data-unsolicited":
-		unsolicited = append(unsolicited, hpkt{Kind: "data", ID: uint32(R.Intn(len(stats) + 3)), Data: []byte("evil")})
+		// an id that cannot have been requested when the packet arrives: never
+		// announced, announced only later, or not a regular file
+		pos := k % (len(stats) + 1)
+		cands := []uint32{uint32(len(stats)), uint32(len(stats) + 1 + R.Intn(3))}
+		for i, st := range stats {
+			if i >= pos || os.FileMode(st.Mode)&os.ModeType != 0 || st.Linkname != "" {
+				cands = append(cands, uint32(i))
+			}
+		}
+		unsolicited = append(unsolicited, hpkt{Kind: "data", ID: core.Pick(R, cands), Data: []byte("evil")})
 	case "data-afterterm":
 	case "backslash":
 		ins(len(stats), fileStat(`zz\..\..\x`))
